@@ -107,6 +107,8 @@ func main() {
 	flag.Parse()
 
 	genBCD(*repo, *out)
+	info := genCodec(*repo, *out)
+	genMessages(*repo, *out, info)
 }
 
 // ---------------------------------------------------------------------------------------------
